@@ -16,7 +16,7 @@ to a **group** (`classTable`, `globalTable`); the groups are the cells of the da
 | dead | `scr` `sen` `noi` `mfc` `cep` `feat` | dead on start: old content is never read before being rewritten — `startUtt` **kills** them in the model |
 | tainted | `lay` `sel` `log` | carried and read, but declared result-neutral: ring capacities / ring phase (C07's subject), the top-N history of the `s2_semi` scorer (no shipped model uses it; the PTM scorer's history is reset when frame 0 is scored — D54 — and is therefore dead-on-start scratch, group `sen`), statistics only read for logging.  They occur in read sets but in no dependency set of a non-tainted cell; that declaration is validated by poisoning / perturbation on the implementation, not proved. |
 | derived | `agg` | embedded aggregates (`fsg_search_s.base`, `fsg_pnode_s.hmm`, `*_mgau_s.base`) whose components are classified on their own |
-| global | `gconst` `ginit` `gexcl` | never written after load / written and consumed only inside `fe_init` / excluded by configuration (error callback + log level, dither PRNG) |
+| global | `gconst` `ginit` `gexcl` | never written after load / the frequency-warp statics of `fe_warp_*.c` (`params`, `is_neutral`, `p_str`, `nyquist_frequency`, `final_piece`): **process-wide, written by every `fe_init`** (operation `initFe`) and read only inside that same call, after it has written them — shared mutable state between instances that is modelled as write-only scratch; on the pinned tree a repeated parameter string was *not* re-parsed (D68), which made the new filter bank depend on what other decoders had set / excluded by configuration (error callback + log level, dither PRNG) |
 
 *Operations* mirror the public calls, split by what they do to the buffers (decided by the harness
 from the sample counts): see `Op`.  *Phases* mirror `acmod->state` (`Phase.code`).  The model is of the
@@ -439,18 +439,20 @@ inductive Op
   | setCmn            -- decoder_set_cmn
   | getCmn            -- decoder_get_cmn(update = 0)
   | getCmnUpdate      -- decoder_get_cmn(update = 1)
+  | initFe            -- fe_init as run by decoder_init / decoder_reinit / decoder_reinit_feat: sets the process-wide warp statics, builds the filter bank
   deriving DecidableEq, Repr
 
 def allPhases : List Phase := [.idle, .started, .batched, .processing, .ended, .endedEmpty]
 def allOps : List Op :=
   [.startUtt, .processNoFrame, .processFirst, .processMore, .processFull, .processFullLive, .endUtt,
-   .endUttEmpty, .query, .queryAlign, .setGrammar, .setCmn, .getCmn, .getCmnUpdate]
+   .endUttEmpty, .query, .queryAlign, .setGrammar, .setCmn, .getCmn, .getCmnUpdate, .initFe]
 
 def Op.name : Op → String
   | .startUtt => "startUtt" | .processNoFrame => "processNoFrame" | .processFirst => "processFirst"
   | .processMore => "processMore" | .processFull => "processFull" | .processFullLive => "processFullLive"
   | .endUtt => "endUtt" | .endUttEmpty => "endUttEmpty" | .query => "query" | .queryAlign => "queryAlign"
   | .setGrammar => "setGrammar" | .setCmn => "setCmn" | .getCmn => "getCmn" | .getCmnUpdate => "getCmnUpdate"
+  | .initFe => "initFe"
 
 def Phase.name : Phase → String
   | .idle => "idle" | .started => "started" | .batched => "batched" | .processing => "processing"
@@ -477,6 +479,7 @@ def trans : Phase → Op → Option Phase
   | ph, .setCmn => if ph.between then some ph else none
   | ph, .getCmn => some ph
   | ph, .getCmnUpdate => if ph.between then some ph else none
+  | ph, .initFe => if ph.between then some ph else none
   | _, _ => none
 
 /-- specification builder: `fnW` get `.fn deps`, tainted writes may depend on anything read, `constW` get the canonical constant -/
@@ -535,6 +538,9 @@ def spec : Phase → Op → Spec Group
   | _, .setCmn => mkSpec [.cfg, .cmn] [.cmn] [.cfg] [] [] []
   | _, .getCmn => mkSpec [.cmn] [] [] [] [] []
   | _, .getCmnUpdate => mkSpec [.cfg, .cmn] [.cmn] [.cfg, .cmn] [] [] []
+  -- `fe_parse_melfb_params` → `fe_warp_set_parameters` (writes the statics from the configuration alone), then
+  -- `fe_build_melfilters` reads them back: nothing of their *old* content is read (repaired code, D68)
+  | _, .initFe => mkSpec [.gconst] [.cfg, .ginit] [] [.log] [] []
 
 def always (g : Group) : Bool := g.kind != .dead
 
@@ -558,6 +564,8 @@ def restCells : List Group := [.hmm]
 def lowRest (g : Group) : Bool := low g || g ∈ restCells
 def lowRestNoCmn (g : Group) : Bool := lowNoCmn g || g ∈ restCells
 def dataNoCmn (g : Group) : Bool := data g && g != .cmn
+/-- everything result-relevant except the warp statics, which are scratch of `initFe` -/
+def dataNoInit (g : Group) : Bool := data g && g != .ginit
 def isGlobal (g : Group) : Bool := g.kind == .global
 
 end SSVerif.Api
